@@ -7,3 +7,4 @@ export CARGO_NET_OFFLINE=true
 ./build/target/release/translate lean/DL/Gen /repo
 ./build/target/release/translate2 lean/DL/Gen /repo
 (cd lean && lake build DL dlmodel)
+cargo build --release --offline --example dlint --manifest-path /repo/Cargo.toml --target-dir /verif/build/dlint
